@@ -59,7 +59,8 @@ static long live_in_resource() {
 }
 
 // ---------------------------------------------------------------------------------------------------------
-static std::vector<std::string> g_strs;          // value k -> string
+static std::vector<std::string> g_strs;          // value k -> string; some values carry embedded NUL bytes
+static std::vector<std::string> g_cstrs;         // value k -> NUL-free string (element type passed as const char*)
 static std::map<std::string, int> g_str_key;
 static SwissMemoryResource* g_value_res = nullptr; // holds the nested value table
 static std::vector<SwissVector<int>*> g_nested;  // value k -> nested vector
@@ -67,6 +68,13 @@ static std::vector<SwissVector<int>*> g_nested;  // value k -> nested vector
 static void init_tables() {
   for (int k = 0; k < 100; ++k) {
     std::string s = k == 0 ? std::string() : "s" + std::to_string(k) + std::string((k * 7) % 40, 'x');
+    g_cstrs.push_back(s);
+    g_str_key[s] = k;
+    // embedded NULs: short ("sK\0b", "\0", "x\0\0y"-like) and long (beyond the small-string buffer) ones
+    if (k % 5 == 1) s = "s" + std::to_string(k) + std::string(1, '\0') + "b";
+    else if (k % 5 == 2) s = std::string(1, '\0') + "n" + std::to_string(k);
+    else if (k % 5 == 3) s = "x" + std::string(2, '\0') + "y" + std::to_string(k) + std::string((k * 3) % 37, 'z') + std::string(1, '\0');
+    else if (k == 95) s = std::string(1, '\0');
     g_strs.push_back(s);
     g_str_key[s] = k;
   }
@@ -108,12 +116,12 @@ template <> struct El<SwissString> {
 };
 template <> struct El<RawString> {
   using X = const char*;
-  static X make(int k) { return g_strs[k].c_str(); }
+  static X make(int k) { return g_cstrs[k].c_str(); }
   static int read(const RawString& e) {
     auto it = g_str_key.find(std::string(e.data(), e.size()));
     return it == g_str_key.end() ? -2 : it->second;
   }
-  static bool eq(const RawString& e, int k) { return e.size() == g_strs[k].size() && memcmp(e.data(), g_strs[k].data(), e.size()) == 0; }
+  static bool eq(const RawString& e, int k) { return e.size() == g_cstrs[k].size() && memcmp(e.data(), g_cstrs[k].data(), e.size()) == 0; }
   static constexpr bool stale = false;
 };
 template <> struct El<SwissVector<int>> {
@@ -492,7 +500,20 @@ static void run_s(const std::string& id, size_t itv, int cycles, uint64_t seed) 
           case 3: s.insert(pos, n % 7, ch); r.insert(pos, n % 7, ch); break;
           case 4: { size_t len = rnd() % 5; s.erase(pos, len); r.erase(pos, len); break; }
           case 5: s.resize(n, ch); r.resize(n, ch); break;
-          case 6: { std::string t(n, ch); s = t; r = t; break; }
+          case 6: {   // assignment from a foreign-allocator string, with embedded NULs in most cases
+            std::string t(n, ch);
+            if (n > 0 && rnd() % 4) t[rnd() % n] = '\0';
+            if (n > 3 && rnd() % 2) t[n / 2] = '\0', t[n - 1] = '\0';
+            s = t; r = t;
+            // a new string constructed from the same value on the same resource (constructor path)
+            SwissMemoryResource scratch;   // not the managed resource: its space_used is being monitored
+            SwissString fresh(t, SwissAllocator<char> {scratch});
+            if (fresh.size() != t.size() || memcmp(fresh.data(), t.data(), t.size()) != 0) { if (std_eq) first_bad = i; std_eq = false; }
+            MonotonicString ms(t, MonotonicAllocator<char> {*static_cast<MonotonicBufferResource*>(&scratch)});
+            ms = t;
+            if (ms.size() != t.size() || memcmp(ms.data(), t.data(), t.size()) != 0) { if (std_eq) first_bad = i; std_eq = false; }
+            break;
+          }
           case 7: s.reserve(n); r.reserve(n); break;
           case 8: if (!r.empty()) { s.pop_back(); r.pop_back(); } break;
           default: { std::string t(n % 9, ch); s += t.c_str(); r += t; break; }
